@@ -2806,47 +2806,29 @@ def asend1(ctx: Ctx) -> None:
                             idx = norm(u.args[0]) if u.args else "-1"
                             if idx in ("0", "-1"):
                                 verdict, where = ("first" if (idx == "0") != rev else "last"), u
-        if verdict == "first":
-            ctx.R.ok("ASEND-1", f"_glue.{q}: first referent with ag_frame", f"FACTS: own generator at index 0, sent value at index 1 on {sorted(own)}")
-        elif verdict == "last":
-            ctx.R.fail("ASEND-1", mod, where, f"{q} follows the *last* referent that has ag_frame; gc.get_referents(agen.asend(v)) is [agen, v] on CPython {later}, so when an async generator is "
-                       "sent into another one the stack continues into the payload instead of the generator being resumed (wrong frames, no error)", construct=f"{q}: last referent with ag_frame")
-        else:
-            # positive evidence of a wrong selection: the generator is looked up by id(<the awaitable>) in a container that is not
-            # local to the hook (a memo that outlives the call) and that value can be returned.  The awaitable is neither kept alive
-            # nor weak-referenceable, so its address is reused by a later awaitable, which is then followed to another generator.
-            params = {a.arg for a in fn.args.args}
-            local_names = {t.id for st_ in walk_scope(fn) if isinstance(st_, ast.Assign) for t in st_.targets if isinstance(t, ast.Name)} | params
+        # positive evidence of a wrong selection: the generator is looked up by id(<the awaitable>) in a container that is not
+        # local to the hook (a memo that outlives the call) and that value can be returned.  The awaitable is neither kept alive
+        # nor weak-referenceable, so its address is reused by a later awaitable, which is then followed to another generator.
+        params = {a.arg for a in fn.args.args}
+        local_names = {t.id for st_ in walk_scope(fn) if isinstance(st_, ast.Assign) for t in st_.targets if isinstance(t, ast.Name)} | params
 
-            def id_lookup(e: ast.AST):
-                for x in ast.walk(e):
-                    key = None
-                    if isinstance(x, ast.Subscript) and isinstance(x.ctx, ast.Load) and isinstance(x.value, ast.Name) and x.value.id not in local_names:
-                        key = x.slice
-                    elif isinstance(x, ast.Call) and isinstance(x.func, ast.Attribute) and x.func.attr in ("get", "pop") and isinstance(x.func.value, ast.Name) \
-                            and x.func.value.id not in local_names and x.args:
-                        key = x.args[0]
-                    if key is not None and isinstance(key, ast.Call) and norm(key.func) == "id" and len(key.args) == 1 and isinstance(key.args[0], ast.Name) and key.args[0].id in params:
-                        return x
-                return None
-            tainted: Dict[str, ast.AST] = {}
-            changed = True
-            while changed:
-                changed = False
-                for st_ in walk_scope(fn):
-                    if isinstance(st_, ast.Assign) and len(st_.targets) == 1 and isinstance(st_.targets[0], ast.Name) and st_.targets[0].id not in tainted:
-                        lk = id_lookup(st_.value)
-                        if lk is None:
-                            for x in ast.walk(st_.value):
-                                if isinstance(x, ast.Name) and x.id in tainted:
-                                    lk = tainted[x.id]
-                                    break
-                        if lk is not None:
-                            tainted[st_.targets[0].id] = lk
-                            changed = True
-            bad = None
+        def id_lookup(e: ast.AST):
+            for x in ast.walk(e):
+                key = None
+                if isinstance(x, ast.Subscript) and isinstance(x.ctx, ast.Load) and isinstance(x.value, ast.Name) and x.value.id not in local_names:
+                    key = x.slice
+                elif isinstance(x, ast.Call) and isinstance(x.func, ast.Attribute) and x.func.attr in ("get", "pop") and isinstance(x.func.value, ast.Name) \
+                        and x.func.value.id not in local_names and x.args:
+                    key = x.args[0]
+                if key is not None and isinstance(key, ast.Call) and norm(key.func) == "id" and len(key.args) == 1 and isinstance(key.args[0], ast.Name) and key.args[0].id in params:
+                    return x
+            return None
+        tainted: Dict[str, ast.AST] = {}
+        changed = True
+        while changed:
+            changed = False
             for st_ in walk_scope(fn):
-                if isinstance(st_, ast.Return) and st_.value is not None:
+                if isinstance(st_, ast.Assign) and len(st_.targets) == 1 and isinstance(st_.targets[0], ast.Name) and st_.targets[0].id not in tainted:
                     lk = id_lookup(st_.value)
                     if lk is None:
                         for x in ast.walk(st_.value):
@@ -2854,14 +2836,31 @@ def asend1(ctx: Ctx) -> None:
                                 lk = tainted[x.id]
                                 break
                     if lk is not None:
-                        bad = (st_, lk)
-                        break
-            if bad is not None:
-                ctx.R.fail("ASEND-1", mod, bad[0], f"{q} can return a generator looked up by the awaitable's address (`{norm(bad[1])[:70]}`) in a container that outlives the call: the awaitable "
-                           "is not kept alive, CPython reuses its address for a later asend()/athrow() awaitable, and that one is then followed to the remembered generator "
-                           "instead of its own (frames of a different chain, no error)", construct=f"{q}: generator selected by id() of the awaitable")
-            else:
-                ctx.R.undecided("ASEND-1", f"{q}: cannot tell which referent with ag_frame is selected")
+                        tainted[st_.targets[0].id] = lk
+                        changed = True
+        bad = None
+        for st_ in walk_scope(fn):
+            if isinstance(st_, ast.Return) and st_.value is not None:
+                lk = id_lookup(st_.value)
+                if lk is None:
+                    for x in ast.walk(st_.value):
+                        if isinstance(x, ast.Name) and x.id in tainted:
+                            lk = tainted[x.id]
+                            break
+                if lk is not None:
+                    bad = (st_, lk)
+                    break
+        if bad is not None:
+            ctx.R.fail("ASEND-1", mod, bad[0], f"{q} can return a generator looked up by the awaitable's address (`{norm(bad[1])[:70]}`) in a container that outlives the call: the awaitable "
+                       "is not kept alive, CPython reuses its address for a later asend()/athrow() awaitable, and that one is then followed to the remembered generator "
+                       "instead of its own (frames of a different chain, no error)", construct=f"{q}: generator selected by id() of the awaitable")
+        elif verdict == "first":
+            ctx.R.ok("ASEND-1", f"_glue.{q}: first referent with ag_frame", f"FACTS: own generator at index 0, sent value at index 1 on {sorted(own)}")
+        elif verdict == "last":
+            ctx.R.fail("ASEND-1", mod, where, f"{q} follows the *last* referent that has ag_frame; gc.get_referents(agen.asend(v)) is [agen, v] on CPython {later}, so when an async generator is "
+                       "sent into another one the stack continues into the payload instead of the generator being resumed (wrong frames, no error)", construct=f"{q}: last referent with ag_frame")
+        else:
+            ctx.R.undecided("ASEND-1", f"{q}: cannot tell which referent with ag_frame is selected")
 
 
 def asend2(ctx: Ctx) -> None:
